@@ -613,7 +613,7 @@ fn stream_trees(m: &mut Model, rep: &mut Report, rng: &Rng, thorough: bool) {
             tree_case(m, rep, &mut r, &T::Bin(a(), o1, Box::new(T::Un(u, b()))), 2, "expr.pairs");
         }
     }
-    let n = if thorough { 12000 } else { 1500 };
+    let n = if thorough { 40000 } else { 4000 };
     let maxd = if thorough { 12 } else { 8 };
     let levels: Vec<Vec<usize>> = (1..=9u8)
         .map(|lv| (0..19).filter(|i| BIN[*i].3 == lv).collect())
@@ -677,7 +677,7 @@ fn soup_case(m: &mut Model, rep: &mut Report, r: &mut Rng, words: Vec<String>, s
 
 fn stream_soup(m: &mut Model, rep: &mut Report, rng: &Rng, thorough: bool) {
     let mut r = rng.fork("soup");
-    let n = if thorough { 40000 } else { 5000 };
+    let n = if thorough { 150000 } else { 15000 };
     for _ in 0..n {
         let len = r.below(16) as usize;
         let mut words = Vec::new();
@@ -1727,6 +1727,86 @@ fn stream_exec(rep: &mut Report, rng: &Rng, thorough: bool) {
             }
         }
     }
+    // ---- graph and vector families: NODE CREATE / EMBED STORE as text on A, direct engine call on B
+    let a = query_router::QueryRouter::new();
+    let b = query_router::QueryRouter::new();
+    let k = if thorough { 400 } else { 80 };
+    for i in 0..k {
+        if i % 2 == 0 {
+            let (age, score, flag) = (r.range(-50, 120), r.range(-8, 8) as f64 / 4.0, r.chance(1, 2));
+            let name = format!("N{}", r.below(1000));
+            let text = format!(
+                "NODE CREATE person {{name: '{name}', age: {age}, score: {score:?}, ok: {}}}",
+                if flag { "TRUE" } else { "FALSE" }
+            );
+            rep.hit("exec.family.node_create");
+            rep.case("exec.effect.execute_parsed", Some(&text));
+            let got = a.execute_parsed(&text);
+            let mut props = std::collections::HashMap::new();
+            props.insert("name".to_string(), graph_engine::PropertyValue::String(name));
+            props.insert("age".to_string(), graph_engine::PropertyValue::Int(age));
+            props.insert("score".to_string(), graph_engine::PropertyValue::Float(score));
+            props.insert("ok".to_string(), graph_engine::PropertyValue::Bool(flag));
+            let want = b.graph().create_node("person", props);
+            let show = |q: &query_router::QueryRouter, id: u64| match q.graph().get_node(id) {
+                Ok(n) => {
+                    let mut ps: Vec<String> = n.properties.iter().map(|(k, v)| format!("{k}={v:?}")).collect();
+                    ps.sort();
+                    format!("{:?} {}", n.labels, ps.join(","))
+                }
+                Err(e) => format!("error {e:?}"),
+            };
+            match (&got, &want) {
+                (Ok(query_router::QueryResult::Ids(ids)), Ok(idb)) if ids.len() == 1 => {
+                    let (sa, sb) = (show(&a, ids[0]), show(&b, *idb));
+                    if sa != sb {
+                        viol(rep, "query_router::QueryRouter::execute_parsed/effect_differs_from_direct_call",
+                            format!("node created from text differs from the direct call's: {sa} vs {sb}"), json!({"text": text}));
+                    }
+                }
+                _ => {
+                    rep.hit("exec.node_create.text_route_rejected_or_other_shape");
+                    if got.is_err() && want.is_ok() && (age < 0 || score < 0.0) {
+                        viol(rep, "query_router::QueryRouter::execute_parsed/negative_number_rejected",
+                            format!("a well-formed statement with a negative number is parsed (`-x` = Unary(Neg, x)) but rejected at execution ({}) while the equivalent direct engine call succeeds", canon_qr(&got)),
+                            json!({"text": text}));
+                    } else if rep.observations.len() < 18 {
+                        rep.observe(json!({"text": text, "execute_parsed": canon_qr(&got), "direct_ok": want.is_ok()}));
+                    }
+                }
+            }
+        } else {
+            let dim = 1 + r.below(6) as usize;
+            let v: Vec<f32> = (0..dim).map(|_| r.range(-16, 16) as f32 / 4.0).collect();
+            let key = format!("k{i}");
+            let body = v.iter().map(|x| format!("{x:?}")).collect::<Vec<_>>().join(", ");
+            let text = format!("EMBED STORE '{key}' [{body}]");
+            rep.hit("exec.family.embed_store");
+            rep.case("exec.effect.execute_parsed", Some(&text));
+            let got = a.execute_parsed(&text);
+            let want = b.vector().store_embedding(&key, v.clone());
+            let bits = |q: &query_router::QueryRouter| match q.vector().get_embedding(&key) {
+                Ok(x) => x.iter().map(|f| format!("{:08x}", f.to_bits())).collect::<Vec<_>>().join(","),
+                Err(_) => "absent".to_string(),
+            };
+            if got.is_ok() && want.is_ok() {
+                let (sa, sb) = (bits(&a), bits(&b));
+                if sa != sb {
+                    viol(rep, "query_router::QueryRouter::execute_parsed/effect_differs_from_direct_call",
+                        format!("embedding stored from text differs from the direct call's: {sa} vs {sb}"), json!({"text": text}));
+                }
+            } else {
+                rep.hit("exec.embed_store.text_route_rejected");
+                if got.is_err() && want.is_ok() && v.iter().any(|x| *x < 0.0) {
+                    viol(rep, "query_router::QueryRouter::execute_parsed/negative_number_rejected",
+                        format!("a well-formed statement with a negative number is parsed (`-x` = Unary(Neg, x)) but rejected at execution ({}) while the equivalent direct engine call succeeds", canon_qr(&got)),
+                        json!({"text": text}));
+                } else if rep.observations.len() < 18 {
+                    rep.observe(json!({"text": text, "execute_parsed": canon_qr(&got), "direct_ok": want.is_ok()}));
+                }
+            }
+        }
+    }
 }
 
 // ------------------------------------------------------------------ main
@@ -1742,6 +1822,20 @@ fn main() {
         "non-trivial = a generated expression tree of depth ≥ 2 (distinct rendered text per parenthesisation mode) whose real parse is a compound AST, or a token-soup case of ≥ 3 tokens (distinct text)",
     );
     let mut m = Model::spawn(&args.driver);
+    // every arm of the model (prefix arms, loop exits, `expectRParen`, depth check, `finish`) has a
+    // distribution key it must show up under; missing ones are listed as uncovered_model_branches
+    for b in BIN.iter() {
+        rep.expected_branches.push(format!("tree.bin.{}", b.0));
+    }
+    for k in [
+        "tree.un.neg", "tree.un.not", "tree.un.bitnot", "tree.atom", "tree.wildcard", "tree.unit",
+        "soup.result.ok", "soup.result.err_eof_expression", "soup.result.err_eof_rparen",
+        "soup.result.err_unexpected_expression", "soup.result.err_unexpected_rparen",
+        "soup.result.err_unexpected_end_of_expression", "boundary.result.err_too_deep", "boundary.result.ok",
+        "normal_form.reprinted_differently", "normal_form.already_minimal",
+    ] {
+        rep.expected_branches.push(k.to_string());
+    }
     rep.note(&format!("statement parser's expression loop corresponds to model op `{}` (probed: 70 nested prefix operators {})", stmt_model_op(), if stmt_model_op() == "parse" { "answer TooDeep" } else { "are accepted: no depth limit" }));
     rep.hit(&format!("stmt_parser.model.{}", stmt_model_op()));
     stream_trees(&mut m, &mut rep, &rng, args.thorough);
